@@ -144,6 +144,26 @@ class P(Prop):
                     "contains_decoys": contains_decoys,
                 }
             )
+        if nparams > 1 and rng.random() < 0.35:
+            # parameter sets that differ in exactly ONE field (a sibling enzyme with the same pre/post but another
+            # not_post, one more missed cleavage, another window, another mode): anything remembered between the
+            # per-parameter-set digests under a key that forgets that field shows here
+            q = dict(params[0])
+            field = rng.choice(["enzyme", "enzyme", "mc", "min", "max", "digestion"])
+            if field == "enzyme":
+                r0 = rules[q["enzyme"]]
+                sib = [n for n in names if n != q["enzyme"] and rules[n]["pre"] == r0["pre"] and rules[n]["post"] == r0["post"]]
+                q["enzyme"] = rng.choice(sib) if sib else rng.choice(names)
+            elif field == "mc":
+                q["mc"] = (q["mc"] + 1) % 3
+            elif field == "min":
+                q["min"] = max(1, q["min"] + rng.choice([-1, 1]))
+                q["max"] = max(q["max"], q["min"])
+            elif field == "max":
+                q["max"] = q["max"] + rng.choice([1, 2])
+            else:
+                q["digestion"] = "semi" if q["digestion"] == "full" else "full"
+            params[1] = q
         if nparams > 1 and rng.random() < 0.85:
             # keep hash-key (non-specific) and plain parameter sets apart (the code's own TODO)
             hashy = [eff_mode(p["enzyme"], p["digestion"]) == "none" for p in params]
@@ -212,7 +232,7 @@ class P(Prop):
             else:
                 lookups.append("".join(rng.choice(al) for _ in range(rng.randint(1, 8))))
         parse_id = rng.choice(["first_space", "first_space", "uniprot", "gene"])
-        case = {"files": files, "parse_id": parse_id, "lookups": lookups}
+        case = {"files": files, "parse_id": parse_id, "lookups": lookups, "flag_variant": rng.randint(0, 1)}
         if direct:
             p = params[0]
             r = rules[p["enzyme"]]
@@ -333,7 +353,25 @@ class P(Prop):
                 from picked_group_fdr import peptide_protein_map as ppm
 
                 try:
-                    maps = ppm.get_peptide_to_protein_maps(paths, None, self._mk_params(case), None, parse_id=fn)
+                    # through the command line's option handling (get_peptide_to_protein_maps_from_args): the flags
+                    # are chosen so that the identifier rule they select is this case's rule
+                    import argparse
+
+                    ps = case["params"]
+                    variant = bool(case.get("flag_variant", 0))
+                    rule = case["parse_id"]
+                    gene_level = True if rule == "gene" else variant
+                    uniprot = True if rule == "uniprot" else (variant if rule == "gene" else False)
+                    pseudo = False if rule == "gene" else True
+                    args = argparse.Namespace(
+                        fasta=paths, peptide_protein_map=None, mq_protein_groups=None,
+                        enzyme=[p["enzyme"] for p in ps], digestion=[p["digestion"] for p in ps],
+                        min_length=[p["min"] for p in ps], max_length=[p["max"] for p in ps],
+                        cleavages=[p["mc"] for p in ps], special_aas=[p["special"] for p in ps],
+                        fasta_contains_decoys=bool(ps[0]["contains_decoys"]),
+                        gene_level=gene_level, fasta_use_uniprot_id=uniprot,
+                    )
+                    maps = ppm.get_peptide_to_protein_maps_from_args(args, pseudo)
                     out["permaps"] = [self._result_view(digest, m, [])[0] for m in maps]
                 except (IndexError, AttributeError, KeyError) as e:
                     out["permaps"] = {"err": self._errname(e)}
